@@ -40,16 +40,20 @@ vars == <<pc, cfg, code, i, heap, loc, out, err>>
 
 -----------------------------------------------------------------------------
 (* tokens *)
-Tok(k, q, nt, r, p, o) == [k |-> k, q |-> q, nt |-> nt, r |-> r, p |-> p, o |-> o]
-DTok(q, nt, r) == Tok("D", q, nt, r, "na", 0)
-GVTok(q, p, o) == Tok("GV", q, "na", FALSE, p, o)
-XTok == Tok("X", "-", "none", FALSE, "na", 0)
-ZTok == Tok("Z", "-", "none", FALSE, "na", 0)
+(*   u  unit conversion factor applied to a frequency-valued array: "own" = the *)
+(*      factor of THIS Phonopy object (part of its state), "default" = VaspToTHz *)
+(*      although the object has another one; "na" for D / E                   *)
+Tok(k, q, nt, r, p, o, u) == [k |-> k, q |-> q, nt |-> nt, r |-> r, p |-> p, o |-> o, u |-> u]
+DTok(q, nt, r) == Tok("D", q, nt, r, "na", 0, "na")
+GVTok(q, p, o) == Tok("GV", q, "na", FALSE, p, o, "own")
+XTok == Tok("X", "-", "none", FALSE, "na", 0, "na")
+ZTok == Tok("Z", "-", "none", FALSE, "na", 0, "na")
 
 (* the uninterpreted primitives: numpy.linalg.eigh / eigvalsh and the        *)
 (* frequency conversion applied to a matrix named by token d                *)
 EigvecsOf(d) == IF d.k = "D" THEN [d EXCEPT !.k = "E"] ELSE XTok
-FreqsOf(d) == IF d.k = "D" THEN [d EXCEPT !.k = "F"] ELSE XTok
+FreqsU(d, u) == IF d.k = "D" THEN [d EXCEPT !.k = "F", !.u = u] ELSE XTok
+FreqsOf(d) == FreqsU(d, "own")
 (* x[band_order] *)
 Permuted(t, o) == IF t.k \in {"E", "F", "GV"} THEN [t EXCEPT !.o = o] ELSE XTok
 
@@ -62,7 +66,7 @@ Cfg(path, kind, omp, nac, dec, wev, wgv, wdm, conn, dir, shape, meshlen, gc, qs)
 N(c) == Len(c.qs)
 
 (* the sites where code variants differ; TRUE = repaired behaviour *)
-CodeSites == {"dmCopy", "iterInit", "gcPrivate", "closedDir", "ompRound"}
+CodeSites == {"dmCopy", "iterInit", "gcPrivate", "closedDir", "ompRound", "iterFactor"}
 Pinned   == [s \in CodeSites |-> FALSE]
 Repaired == [s \in CodeSites |-> TRUE]
 
@@ -290,7 +294,7 @@ ImNext ==      \* one call of __next__: locals are fresh
        /\ heap' = IF cfg.wev THEN Append(heap, <<EigvecsOf(d)>>) ELSE heap
        /\ loc' = [loc EXCEPT !.evs = IF cfg.wev THEN <<Len(heap) + 1, 1>>
                                      ELSE IF code["iterInit"] THEN NoneRef ELSE Unb,
-                             !.freq = FreqsOf(d)]
+                             !.freq = FreqsU(d, IF code["iterFactor"] \/ cfg.fac = "vasp" THEN "own" ELSE "default")]   \* MeshBase(..., factor=factor)
   /\ pc' = "im_ret"
   /\ UNCHANGED <<cfg, code, i, out, err>>
 ImRet ==       \* return frequencies, eigenvectors
@@ -422,5 +426,8 @@ DirectCfgs == {c \in {Cfg("direct", kind, omp, nac, dec, FALSE, FALSE, FALSE, FA
                       kind \in {"dm", "freq", "freqvec", "dmobj"}, omp \in B, nac \in Nacs, dec \in B,
                       dir \in B, qs \in {<<"G">>, <<"q1">>}} :
                  c.dir => c.kind = "dmobj"}     \* only DynamicalMatrix.run takes a direction
-AllCfgs == QpCfgs \cup MeshCfgs("mesh") \cup MeshCfgs("itermesh") \cup BandCfgs \cup DirectCfgs
+BaseCfgs == QpCfgs \cup MeshCfgs("mesh") \cup MeshCfgs("itermesh") \cup BandCfgs \cup DirectCfgs
+(* the unit conversion factor of the object: VaspToTHz (default), VaspToCm, an arbitrary 3.7 *)
+Facs == {"vasp", "cm", "x37"}
+AllCfgs == {[fac |-> f] @@ c : c \in BaseCfgs, f \in Facs}
 =============================================================================
